@@ -378,8 +378,72 @@ static void w_crl(psX509Crl_t *crl)
 #endif
 
 #ifdef USE_OCSP_RESPONSE
+/* independent count of the SingleResponse entries of an OCSPResponse (RFC 6960 4.2.1); -1 if the input is not laid out
+ * canonically enough for this small walker (then nothing is concluded) */
+static const unsigned char *w_tlv(const unsigned char *p, const unsigned char *end, int *tag, const unsigned char **c, size_t *cl)
+{
+    size_t l, nb, i;
+    if (end - p < 2) return NULL;
+    *tag = p[0];
+    if (p[1] < 0x80) { l = p[1]; p += 2; }
+    else
+    {
+        nb = p[1] & 0x7f;
+        if (nb == 0 || nb > 4 || (size_t) (end - p) < 2 + nb) return NULL;
+        for (l = 0, i = 0; i < nb; i++) l = (l << 8) | p[2 + i];
+        p += 2 + nb;
+    }
+    if ((size_t) (end - p) < l) return NULL;
+    *c = p; *cl = l;
+    return p + l;
+}
+static int w_ocsp_count_single(const unsigned char *in, size_t inlen)
+{
+    const unsigned char *c, *e, *p, *n;
+    size_t cl;
+    int tag, cnt = 0, seen_time = 0;
+    if (!w_tlv(in, in + inlen, &tag, &c, &cl) || tag != 0x30) return -1;            /* OCSPResponse */
+    p = c; e = c + cl;
+    if (!(p = w_tlv(p, e, &tag, &c, &cl)) || tag != 0x0a) return -1;                  /* responseStatus */
+    if (!w_tlv(p, e, &tag, &c, &cl) || tag != 0xa0) return -1;                        /* [0] responseBytes */
+    if (!w_tlv(c, c + cl, &tag, &c, &cl) || tag != 0x30) return -1;
+    p = c; e = c + cl;
+    if (!(p = w_tlv(p, e, &tag, &c, &cl)) || tag != 0x06) return -1;                  /* responseType */
+    if (!w_tlv(p, e, &tag, &c, &cl) || tag != 0x04) return -1;                        /* response OCTET STRING */
+    if (!w_tlv(c, c + cl, &tag, &c, &cl) || tag != 0x30) return -1;                   /* BasicOCSPResponse */
+    if (!w_tlv(c, c + cl, &tag, &c, &cl) || tag != 0x30) return -1;                   /* ResponseData */
+    p = c; e = c + cl;
+    while (p < e)
+    {
+        if (!(n = w_tlv(p, e, &tag, &c, &cl))) return -1;
+        if (tag == 0x18) seen_time = 1;
+        else if (tag == 0x30 && seen_time)
+        {
+            const unsigned char *q = c, *qe = c + cl, *qc;
+            size_t ql;
+            while (q < qe)
+            {
+                if (!(q = w_tlv(q, qe, &tag, &qc, &ql)) || tag != 0x30) return -1;
+                cnt++;
+            }
+            return cnt;
+        }
+        p = n;
+    }
+    return -1;
+}
+
 static void w_ocsp(psOcspResponse_t *r, const unsigned char *in, size_t inlen)
 {
+    {
+        /* an accepted response cannot carry more SingleResponse entries than the object has room for: the surplus was
+         * either written behind the array or silently dropped */
+        int ns = w_ocsp_count_single(in, inlen);
+        if (ns > MAX_OCSP_RESPONSES)
+        {
+            w_bad("ocsp.single.count", "accepted response carries %d SingleResponse entries but psOcspResponse_t.singleResponse[] holds %d", ns, MAX_OCSP_RESPONSES);
+        }
+    }
     int i;
     w_inbuf("ocsp.responderName", r->responderName, r->responderName ? 2 : 0, in, inlen);
     w_inbuf("ocsp.responderKeyHash", r->responderKeyHash, r->responderKeyHash ? SHA1_HASH_SIZE : 0, in, inlen);
